@@ -29,7 +29,12 @@ def check(rep, tier, seed):
         for k in ks:
             cuts.append({"env": c["env"], "cmd": "dec", "ty": c["ty"], "hex": hx[:2 * k] or "-", "_full": n, "_k": k})
     impl, mod = C.run_codec(harness, model, cuts, wd, "cut")
-    dis = [(C.codec_line(c), a, b) for c, a, b in zip(cuts, impl, mod) if a != b]
+    from .. import malformed as M
+    # a cut can turn later bytes into the count of a sequence of zero-width elements (F14): the model then needs as
+    # much fuel as the count says; such cases are judged on the implementation alone (it must still answer Err)
+    zw_fuel = sum(1 for c, b in zip(cuts, mod) if b == "fuel")
+    dis = [(C.codec_line(c), a, b) for c, a, b in zip(cuts, impl, mod) if a != b and b != "fuel"]
+    rep.coverage["model_fuel_on_zero_width_counts"] = zw_fuel
     bad = [(c, a) for c, a in zip(cuts, impl) if not a.startswith("err ")]
     # other definitions (the last clause of the property): data of version w >= 1 of a legal history cut at every
     # position and read by version r != w - older readers that do not know the last chunks, newer readers that
